@@ -103,7 +103,7 @@ class ExtendSplitSim(DS.DimwiseSim):
         a, b = np.array(c["a"], dtype=float), np.array(c["b"], dtype=float)
         self.a, self.b = a, b
         # configuration class carried by the signature of any exception the library raises in this run
-        self.ctx.exc_sig = {"strategy": "extend_split", "automatic": c["automatic"], "lmin_equals_lmax": c["lmin"] == c["lmax"],
+        self.ctx.exc_sig = {"strategy": "extend_split", "automatic": c["automatic"], "lmin_equals_lmax": c["lmin"] == c["lmax"], "single_dim": bool(c.get("single_dim", False)),
                             "boundary": c["boundary"], "version12_lmin_ge_2": c["version"] in (1, 2) and c["lmin"] >= 2}
         if c.get("clock_jumps"):
             r = stream(self.rk, "faults")
